@@ -15,31 +15,56 @@ BASE_ARGS = ["cargo", "kani", "-Z", "stubbing", "-Z", "unstable-options"]
 
 
 def _limit(mem_gb):
+    # No RLIMIT_AS: kani-driver itself maps a lot of address space while it parses CBMC's output and
+    # dies with "memory allocation failed" under an address-space limit (measured: verdict lost after
+    # CBMC had finished).  Memory is bounded by a watchdog on the resident set of the process group.
     def f():
-        lim = int(mem_gb * (1 << 30))
-        resource.setrlimit(resource.RLIMIT_AS, (lim, lim))
         os.setsid()
 
     return f
 
 
+def _group_rss_gb(pgid):
+    try:
+        out = subprocess.run(["ps", "-eo", "pgid=,rss="], capture_output=True, text=True).stdout
+    except Exception:
+        return 0.0
+    tot = 0
+    for line in out.splitlines():
+        parts = line.split()
+        if len(parts) == 2 and parts[0] == str(pgid):
+            tot += int(parts[1])
+    return tot / (1024.0 * 1024.0)
+
+
 def _run(cmd, cwd, timeout, mem_gb, log):
+    import signal
+
     t0 = time.time()
     with open(log, "w") as fh:
         p = subprocess.Popen(cmd, cwd=cwd, stdout=fh, stderr=subprocess.STDOUT, env=KANI_ENV, preexec_fn=_limit(mem_gb))
-        try:
-            rc = p.wait(timeout=timeout)
-            timed_out = False
-        except subprocess.TimeoutExpired:
-            import signal
-
+        timed_out = False
+        oom = False
+        while True:
             try:
-                os.killpg(p.pid, signal.SIGKILL)
-            except ProcessLookupError:
+                rc = p.wait(timeout=5)
+                break
+            except subprocess.TimeoutExpired:
                 pass
-            p.wait()
-            rc = -9
-            timed_out = True
+            if time.time() - t0 > timeout:
+                timed_out = True
+            elif _group_rss_gb(p.pid) > mem_gb:
+                oom = True
+            if timed_out or oom:
+                try:
+                    os.killpg(p.pid, signal.SIGKILL)
+                except ProcessLookupError:
+                    pass
+                p.wait()
+                rc = -9
+                break
+        if oom:
+            fh.write("\n[verif] killed by the memory watchdog: resident set above %s GB (Out of memory)\n" % mem_gb)
     return rc, timed_out, time.time() - t0
 
 
